@@ -3,6 +3,7 @@
 import glob, json, os
 # what had to be added to the checks before the change was caught (empty: caught as first run)
 STRENGTHENED = {
+ 'C06-padded_cells_skip_pad': 'table workload under pad_block_width / max_wrap_width / min_wrap_width / other decorators, paragraphs inside cells, tables inside quotes and list items; cell rectangles from the hooked allocation when the bars are inconsistent',
  'C01-sup_estimate_recursion': 'deep-nesting generator now also nests <sup> (and every other container tag)',
  'C02-footnote_wide_char_boundary': 'hrefs with wide (katakana) characters',
  'C06-zero_width_span_skip': 'known unsized-column effect is predicted from the hooked column allocation instead of masking every zero-width cell',
